@@ -1,6 +1,6 @@
 (* Extraction of the time-conversion / layout models (C03, C04). ExtrOcamlBasic only. *)
 From Coq Require Import ZArith List String.
-From DRF Require Import Base.U64 Base.Dec Base.Civil Gen.TimeConvGen.
+From DRF Require Import Base.U64 Base.Dec Base.Civil Gen.TimeConvGen Gen.LayoutGen.
 Require Extraction.
 Require Import ExtrOcamlBasic.
 Import ListNotations.
@@ -14,6 +14,9 @@ Definition run (f : Z) (args : list Z) : list Z :=
       let '(rc, y, mo, dd, hh, mi, ss, p) := digital_rf_get_unix_time_rational k n d in
       [rc; y; mo; dd; hh; mi; ss; p]
   | 4, [t] => let '(y, mo, dd, hh, mi, ss) := time_parts t in [y; mo; dd; hh; mi; ss]
+  | 5, [start; n; d; sc; fc; k] =>
+      let '(rc, nleft, maxs, subdir, base) := digital_rf_get_subdir_file start n d sc fc k in
+      [rc; nleft; maxs; Z.of_nat (String.length subdir)] ++ codes subdir ++ codes base
   | _, _ => [-999]
   end.
 
